@@ -177,15 +177,16 @@ Fixpoint rpf_cmp_loop (rules : list rule) (t : N) (cls qb : list N) (gfuel fuel 
 
 (* the whole function on the explicit pattern buffer; returns (cmp, buffer afterwards).
    old = true: the control flow of the pinned source (before be64401): the terminal-differs branch returns
-   at once, WITHOUT restoring str[strLen]. *)
+   at once, WITHOUT restoring str[strLen], and the normal exit writes 0 there; the current source gives the
+   borrowed byte back (whatever it was: the buffer may hold more than the pattern). *)
 Definition rp_compare (old : bool) (d : hrpf) (id : N) (buf : list N) (strLen : N) : option (Z * list N) :=
   match nthN buf strLen with
   | None => None                                   (* str[strLen] is outside the buffer *)
-  | Some _ =>
+  | Some borrowed =>                               (* uchar borrowed = str[strLen]; given back on leaving *)
       let qb := dh_setN buf strLen (hf_maxchar d) in
       match rpf_cmp_loop (hf_rules d) (hf_t d) (hf_cls d) qb (length (hf_rules d)) (length qb) (u32 id) 0 0 strLen 0%Z with
       | None => None
-      | Some (cmp, early) => Some (cmp, if old && early then qb else dh_setN qb strLen 0)
+      | Some (cmp, early) => Some (cmp, if old && early then qb else dh_setN qb strLen (if old then 0 else borrowed))
       end
   end.
 
